@@ -465,6 +465,9 @@ func (g *FnGen) applyContract(ci *calleeInfo, args []Term, fvs map[string]SVal, 
 			nv[fmt.Sprintf("arg%d", i)] = SVal{a, t}
 		}
 		env.vars = nv
+		if g.curInstr != nil {
+			env.at = g.curInstr.Block()
+		}
 		goal := g.evalBool(env, cl)
 		g.oblige("atcall", cl.Label, cl.Props, reach, goal, cl.Src, pos)
 	}
@@ -593,7 +596,7 @@ func (g *FnGen) applyContract(ci *calleeInfo, args []Term, fvs map[string]SVal, 
 		rvals = append(rvals, SVal{t, rt})
 	}
 	// exceptional continuation
-	if g.wantX() && !(con != nil && con.Flags["nopanic"]) {
+	if g.wantX() && !g.inDeferX && !(con != nil && con.Flags["nopanic"]) {
 		pan := g.declare(g.fresh("panics"), "Bool")
 		xs := st.clone()
 		g.w.heapSort["panicking"], g.w.heapSort["panicval"] = "Bool", "Int"
@@ -609,10 +612,21 @@ func (g *FnGen) applyContract(ci *calleeInfo, args []Term, fvs map[string]SVal, 
 				}
 			}
 		}
-		g.xexits = append(g.xexits, xexit{fmt.Sprintf("(and %s %s)", reach, pan.S), xs, posOf(w, pos) + " call " + ci.short})
-		reach2 := fmt.Sprintf("(and %s (not %s))", reach, pan.S)
-		_ = reach2
-		g.assume(reach, fmt.Sprintf("(not %s)", pan.S)) // normal continuation: the call returned
+		g.xexits = append(g.xexits, xexit{fmt.Sprintf("(and %s %s)", reach, pan.S), xs, posOf(w, pos) + " call " + ci.short, len(g.defers)})
+		// normal continuation: the call returned
+		reach = g.define(g.fresh("reach.ret"), Term{fmt.Sprintf("(and %s (not %s))", reach, pan.S), "Bool"}).S
+		g.curReach = reach
+	}
+	if ci.dynamic {
+		ck := "Calls:" + ci.key
+		w.heapSort[ck] = "Int"
+		cnt := g.hget(st, ck)
+		st.heap[ck] = g.define(g.fresh("H:"+ck), Term{fmt.Sprintf("(+ %s 1)", cnt.S), "Int"})
+		for i, a := range args {
+			ak := fmt.Sprintf("CallArg%d:%s", i, ci.key)
+			w.heapSort[ak] = a.Sort
+			st.heap[ak] = a
+		}
 	}
 	// postconditions
 	if con != nil {
